@@ -1,6 +1,6 @@
 (* C18 - dialect entry points differ only in the documented quoting rules (statements about the engine model of Model/Peg.v). *)
 From Coq Require Import List NArith Bool.
-From MoSql Require Import Model.Peg Model.PegSim Proofs.PegProofs Proofs.PegSimProofs Proofs.PegCor.
+From MoSql Require Import Model.Peg Model.PegSim Proofs.PegProofs Proofs.PegSimProofs Proofs.PegCor Proofs.PegCert.
 Import ListNotations.
 Local Open Scope N_scope.
 
@@ -31,6 +31,27 @@ Theorem C18_dialect_neutral : forall T1 T2 R EQN DT o len root1 root2 w0,
   is_abort (fst (parse_all T1 o len f1 root1 w0)) = false -> is_abort (fst (parse_all T2 o len f2 root2 w0)) = false ->
   fst (parse_all T2 o len f2 root2 w0) = fst (parse_all T1 o len f1 root1 w0).
 Proof. exact C18_dialect_neutral_pf. Qed.
+
+
+(* the whole-input statement with the two "does not abort" premises discharged by the totality theorem (each table with its own checked certificate) *)
+Theorem C18_dialect_neutral_total : forall NL1 NLR1 RK1 NL2 NLR2 RK2 NLT T1 T2 R EQN DT o len root1 root2 w0,
+  simb T1 T2 R EQN DT = true ->
+  In (root1, root2) R ->
+  (forall t p, memb t DT = true -> o (QT t p) = 0) ->
+  (forall i j f1 f2 raw pos, In (i, j) EQN ->
+     is_abort (fst (run T1 o len f1 i raw pos)) = false -> is_abort (fst (run T2 o len f2 j raw pos)) = false ->
+     fst (run T2 o len f2 j raw pos) = fst (run T1 o len f1 i raw pos)) ->
+  cert_ok NL1 NLR1 RK1 NLT T1 = true -> cert_ok NL2 NLR2 RK2 NLT T2 = true -> oracle_ok NLT o len ->
+  root1 < N.of_nat (List.length T1) -> root2 < N.of_nat (List.length T2) ->
+  forall f1 f2,
+  (len + 1) * (Rmax RK1 + 2) + RKf RK1 root1 + 1 < N.of_nat f1 -> (len + 1) * (Rmax RK2 + 2) + RKf RK2 root2 + 1 < N.of_nat f2 ->
+  fst (parse_all T2 o len f2 root2 w0) = fst (parse_all T1 o len f1 root1 w0).
+Proof.
+  intros NL1 NLR1 RK1 NL2 NLR2 RK2 NLT T1 T2 R EQN DT o len root1 root2 w0 Hs Hr Hd He Hc1 Hc2 Ho Hr1 Hr2 f1 f2 Hf1 Hf2.
+  apply (C18_dialect_neutral_pf T1 T2 R EQN DT o len root1 root2 w0 Hs Hr Hd He f1 f2).
+  - exact (engine_total NL1 NLR1 RK1 NLT T1 o len root1 w0 f1 Hc1 Ho Hr1 Hf1).
+  - exact (engine_total NL2 NLR2 RK2 NLT T2 o len root2 w0 f2 Hc2 Ho Hr2 Hf2).
+Qed.
 
 
 (* a terminal of DT does match somewhere: an alternative that is skipped by the check can then win on one side only *)
